@@ -38,9 +38,11 @@ def sh(cmd, cwd=None, env=None, timeout=None):
 def suite(wt):
     env = dict(os.environ, PYTHONPATH='%s/Python:%s/Test' % (wt, wt),
                PYTHONHASHSEED='0')
-    rc, out = sh(PY + ' -m pytest -q -rA -p no:cacheprovider --timeout=900 '
+    # a few tests bind fixed ports: one suite at a time on this machine
+    rc, out = sh('flock /tmp/sv/suite.lock ' + PY +
+                 ' -m pytest -q -rA -p no:cacheprovider --timeout=900 '
                  '--continue-on-collection-errors 2>&1', cwd=wt, env=env,
-                 timeout=1800)
+                 timeout=3600)
     passed = sorted(set(re.findall(r'^PASSED (\S+)', out, flags=re.M)))
     return passed
 
@@ -99,7 +101,7 @@ def main():
             # at once: re-run whatever is missing, alone, up to 3 times
             for tid in [t for t in base if t not in after]:
                 for _k in range(3):
-                    rc_t, _o = sh(PY + ' -m pytest -q -p no:cacheprovider '
+                    rc_t, _o = sh('flock /tmp/sv/suite.lock ' + PY + ' -m pytest -q -p no:cacheprovider '
                                   '--timeout=900 "%s"' % tid, cwd=wt, env=env,
                                   timeout=900)
                     if rc_t == 0:
